@@ -35,7 +35,6 @@ const inversion8Bytes = 256 / 8
 
 type leopardGF8cache struct {
 	errorLocs [256]ffe8
-	bits      *errorBitfield8
 }
 
 // newFF8 is like New, but for the 8-bit "leopard" implementation.
@@ -459,10 +458,14 @@ func (r *leopardFF8) reconstruct(shards [][]byte, recoverAll bool) error {
 
 	// Fill in error locations.
 	var errorBits errorBitfield8
+	// cacheKey holds the complete set of erasures, independent of recoverAll.
+	// The error locator depends on all of them.
+	var cacheKey errorBitfield8
 	var errLocs [order8]ffe8
 	for i := 0; i < r.parityShards; i++ {
 		if len(shards[i+r.dataShards]) == 0 {
 			errLocs[i] = 1
+			cacheKey.set(i)
 			if LEO_ERROR_BITFIELD_OPT && recoverAll {
 				errorBits.set(i)
 			}
@@ -470,6 +473,7 @@ func (r *leopardFF8) reconstruct(shards [][]byte, recoverAll bool) error {
 	}
 	for i := r.parityShards; i < m; i++ {
 		errLocs[i] = 1
+		cacheKey.set(i)
 		if LEO_ERROR_BITFIELD_OPT && recoverAll {
 			errorBits.set(i)
 		}
@@ -477,6 +481,7 @@ func (r *leopardFF8) reconstruct(shards [][]byte, recoverAll bool) error {
 	for i := 0; i < r.dataShards; i++ {
 		if len(shards[i]) == 0 {
 			errLocs[i+m] = 1
+			cacheKey.set(i + m)
 			if LEO_ERROR_BITFIELD_OPT {
 				errorBits.set(i + m)
 			}
@@ -484,29 +489,27 @@ func (r *leopardFF8) reconstruct(shards [][]byte, recoverAll bool) error {
 	}
 
 	var gotInversion bool
+	var cacheID [inversion8Bytes]byte
 	if LEO_ERROR_BITFIELD_OPT && r.inversion != nil {
-		cacheID := errorBits.cacheID()
+		cacheID = cacheKey.cacheID()
 		r.inversionMu.Lock()
 		if inv, ok := r.inversion[cacheID]; ok {
 			r.inversionMu.Unlock()
 			errLocs = inv.errorLocs
-			if inv.bits != nil && useBits {
-				errorBits = *inv.bits
-				useBits = true
-			} else {
-				useBits = false
-			}
 			gotInversion = true
 		} else {
 			r.inversionMu.Unlock()
 		}
 	}
 
+	// The bit field is cheap to prepare and depends on recoverAll,
+	// so it is always derived from this call's own erasures.
+	if LEO_ERROR_BITFIELD_OPT && useBits {
+		errorBits.prepare()
+	}
+
 	if !gotInversion {
 		// No inversion...
-		if LEO_ERROR_BITFIELD_OPT && useBits {
-			errorBits.prepare()
-		}
 
 		// Evaluate error locator polynomial8
 		fwht8(&errLocs, m+r.dataShards)
@@ -521,14 +524,8 @@ func (r *leopardFF8) reconstruct(shards [][]byte, recoverAll bool) error {
 			c := leopardGF8cache{
 				errorLocs: errLocs,
 			}
-			if useBits {
-				// Heap alloc
-				var x errorBitfield8
-				x = errorBits
-				c.bits = &x
-			}
 			r.inversionMu.Lock()
-			r.inversion[errorBits.cacheID()] = c
+			r.inversion[cacheID] = c
 			r.inversionMu.Unlock()
 		}
 	}
